@@ -1061,6 +1061,8 @@ def gen_cases(ctx):
     fixed(["uni_a"], 2, ["raiser", "add1", "buy"])
     fixed(["uni_a"], 2, ["add1", "buy", "raiser", "sell"])
     fixed(["uni_a"], 4, ["raiser", "raiser", "add1", "watcher"])
+    fixed(["uni_a"], 2, ["raiser", "add1", "buy"], windows=True)           # … and through the pooled branch that pickles the data per task
+    fixed(["uni_a", "uni_b"], 2, ["add1", "raiser", "add_b", "raiser"], windows=True)
     # Squeeth refers to its oSQTH pool market: both are configured markets
     fixed(["uni_sq", "squeeth"], 1, ["sq_buy", "sq_short", "idle", "mut_data"], price_kind="decimal")
     fixed(["uni_sq", "squeeth"], 2, ["sq_short", "sq_buy", "watcher"])
